@@ -570,6 +570,10 @@ def fold_clause(where, cond, body, opnd_paths):
     def walk(c):
         if c[0] == "and":
             walk(c[1]); walk(c[2]); return
+        if c[0] == "ne" and c[1] == "*result" and c[2] in ("ENUMRED_FAIL", "CONSTRED_FAIL"):
+            # status guard: the clause applies only while no reduction has failed; on the failing path the compile is refused,
+            # so the value-level statement `fold = run` is about the clause as it stands (repo fix a186690)
+            return
         if c[0] == "eq":
             for o, p in opnd_paths.items():
                 if c[1] == p + "->type":
